@@ -47,6 +47,7 @@ type Program struct {
 	pfiles  map[*ast.File]bool
 	Units   UnitStats
 	lits    map[*ast.FuncLit]*FuncInfo
+	eff     *Effects
 }
 
 type UnitStats struct {
